@@ -1,7 +1,14 @@
 // Package vsync stands in for "sync" in rewritten repository sources.
 package vsync
 
-import "github.com/anthdm/hollywood/zzverif/vsched"
+import (
+	"fmt"
+	"sort"
+	"sync"
+	"unsafe"
+
+	"github.com/anthdm/hollywood/zzverif/vsched"
+)
 
 type Mutex = vsched.Mutex
 type RWMutex = vsched.RWMutex
@@ -9,4 +16,77 @@ type WaitGroup = vsched.WaitGroup
 type Locker interface {
 	Lock()
 	Unlock()
+}
+
+type Pool = sync.Pool
+
+// Once is sync.Once: the first caller runs f holding the Once; later callers wait for it.
+type Once struct {
+	mu   vsched.Mutex
+	done bool
+}
+
+func (o *Once) Do(f func()) {
+	o.mu.Lock()
+	defer o.mu.Unlock()
+	if !o.done {
+		defer func() { o.done = true }()
+		f()
+	}
+}
+
+// Map is sync.Map: every method is one atomic operation (a scheduling point).
+type Map struct {
+	m map[any]any
+}
+
+func (m *Map) Load(key any) (v any, ok bool) {
+	vsched.AtomicDo(unsafe.Pointer(m), func() (bool, uint64) { v, ok = m.m[key]; return false, 0 })
+	return
+}
+func (m *Map) Store(key, value any) {
+	vsched.AtomicDo(unsafe.Pointer(m), func() (bool, uint64) {
+		if m.m == nil {
+			m.m = map[any]any{}
+		}
+		m.m[key] = value
+		return true, 0
+	})
+}
+func (m *Map) LoadOrStore(key, value any) (actual any, loaded bool) {
+	vsched.AtomicDo(unsafe.Pointer(m), func() (bool, uint64) {
+		if m.m == nil {
+			m.m = map[any]any{}
+		}
+		if actual, loaded = m.m[key]; loaded {
+			return false, 0
+		}
+		m.m[key], actual = value, value
+		return true, 0
+	})
+	return
+}
+func (m *Map) LoadAndDelete(key any) (v any, loaded bool) {
+	vsched.AtomicDo(unsafe.Pointer(m), func() (bool, uint64) {
+		v, loaded = m.m[key]
+		delete(m.m, key)
+		return true, 0
+	})
+	return
+}
+func (m *Map) Delete(key any) { m.LoadAndDelete(key) }
+func (m *Map) Range(f func(key, value any) bool) {
+	var keys []any
+	vsched.AtomicDo(unsafe.Pointer(m), func() (bool, uint64) {
+		for k := range m.m {
+			keys = append(keys, k)
+		}
+		return false, 0
+	})
+	sort.Slice(keys, func(i, j int) bool { return fmt.Sprint(keys[i]) < fmt.Sprint(keys[j]) })
+	for _, k := range keys {
+		if v, ok := m.Load(k); ok && !f(k, v) {
+			return
+		}
+	}
 }
